@@ -57,9 +57,10 @@
 //	    `.list v`, map[string]T ↦ `.map .T _`, []T ↦ `.slice .T _`, the ten integer types ↦
 //	    `.intw .W v`, float64 ↦ `.f64 v`, float32 ↦ `.f32 v`, string / bool / nil, default ↦ `_`.
 //	    `int(v)` (and `v` of type int) is `wrap64 v`, `float64(v)` of a float32 is `f32to64 v`,
-//	    `newString/newBool/newInt/newFloat/newNil` are the constructors of `Val`.  `NewObjectFrom` /
-//	    `NewListFrom` / `Clone` are not translated: calls go to the model's `O.newFrom` / `L.newFrom` /
-//	    `O.clone` (`none` when the model's clone is undefined, i.e. on a cyclic heap).
+//	    `newString/newBool/newInt/newFloat/newNil` are the constructors of `Val`.  CALLS of `NewObjectFrom` /
+//	    `NewListFrom` / `Clone` are not expanded: they go to the model's `O.newFrom` / `L.newFrom` /
+//	    `O.clone` (`none` when the model's clone is undefined, i.e. on a cyclic heap); `NewObjectFrom` itself
+//	    is translated (R15) and proved equal to `O.newFrom`, `NewListFrom` in listgen2.go.
 //	R12 native.  `native` runs on the pure tree the value denotes (`JVal`, as `toNative` does):
 //	    Object ↦ `.obj kvs`, List ↦ `.list xs`; `v.ForEach(f)` / `v.ForEachValue(f)` with a function
 //	    literal is recursion over `kvs` / `xs`; filling the fresh map / slice is consing in iteration
@@ -82,6 +83,19 @@
 //	        switch, so the same Lean), and an assertion on a refined value is decided statically.
 //	    (e) the message of `panic(fmt.Sprintf(F, …))` is F with every plain `%s` whose argument is a string
 //	        literal replaced by that literal (what Sprintf prints), before the prefix table is consulted.
+//	R15 NewObjectFrom.
+//	    (a) In a `case map[string]T:` clause of a type switch over a `GoVal` the bound variable also stands for
+//	        the entries `kvs` of `.map .T kvs` (a Go map is an association list in one iteration order, keys
+//	        distinct): `len(s)` is `(kvs.length : Int)`, `for key, value := range s` is recursion over `kvs`
+//	        (R5) with `key : Str` and `value : GoVal`.
+//	    (b) `var x Object` (`List`, `*object`, `*list`) declares a LATE variable: it is nil until assigned, reading
+//	        it before is rejected, `x = e` is accepted once (e a freshly allocated cell of that kind).  A
+//	        function literal shares the late variables of the block that defines it: when it is called
+//	        where the variable is in scope it sees the current state, and what it assigns is visible to the
+//	        caller afterwards; called anywhere else, the variable is unusable inside it.
+//	    (c) `&object{val: make(map[string]field, n)}` with any integer expression n (evaluated, then dropped:
+//	        the size hint of a map has no observable effect).
+//	    (d) `x.val[k] = v` on a local `x` that holds an initialised object cell is the store of R1 on that cell.
 package main
 
 import (
@@ -154,6 +168,7 @@ var objSpecs = []*ospec{
 	{recv: "object", name: "MapInts", gen: "mapIntsGen", shape: "HO", rtype: "Ref"},
 	{recv: "object", name: "MapFloats", gen: "mapFloatsGen", shape: "HO", rtype: "Ref"},
 	{recv: "", name: "parseVal", gen: "parseValGen", shape: "HO", rtype: "Val", anyAs: "goval"},
+	{recv: "", name: "NewObjectFrom", gen: "newObjectFromGen", shape: "HO", rtype: "Ref", anyAs: "goval"},
 }
 
 // panic messages (format strings) by prefix
@@ -164,6 +179,7 @@ var objPanics = [][2]string{
 	{"field '%s' is not a", "notKind"},
 	{"object does not contain value", "noValue"},
 	{"incompatible type", "unsupported"},
+	{"unsupported map type", "unsupported"},
 }
 
 // Go type of a type assertion / a `TypeX` constant ↦ Kind
@@ -214,6 +230,8 @@ type ov struct {
 	whole    string // goval bound by a type switch: Lean expression of the whole value
 	depth    int    // block depth at which the variable was declared
 	tok      string // emptymap: identity of the freshly made Go map (R14b)
+	kvs      string // goval bound by `case map[string]T`: Lean name of the entries (R15a)
+	slot     string // a late variable (R15b): identity of the declaration
 }
 
 type obinder struct{ name, typ string }
@@ -880,6 +898,25 @@ func (g *ogen) stmt(st ast.Stmt, env *oenv, k okont) lnode {
 	case *ast.AssignStmt:
 		return g.assign(st, env, k)
 
+	case *ast.DeclStmt:
+		// R15b: var x Object
+		gd, ok := st.Decl.(*ast.GenDecl)
+		if !ok || gd.Tok != token.VAR || len(gd.Specs) != 1 {
+			failAt(st, "unrecognised declaration: %s", src(st))
+		}
+		vs := gd.Specs[0].(*ast.ValueSpec)
+		kind := map[string]string{"Object": "object", "*object": "object", "List": "list", "*list": "list"}[goTypeStr(vs.Type)]
+		if len(vs.Names) != 1 || len(vs.Values) != 0 || vs.Type == nil || kind == "" || vs.Names[0].Name == "_" {
+			failAt(st, "unrecognised declaration: %s", src(st))
+		}
+		e := env.clone()
+		g.bind(e, vs.Names[0].Name, ov{sort: "unset", kind: kind})
+		g.nmaps++
+		late := e.locals[vs.Names[0].Name]
+		late.slot = fmt.Sprint("var", g.nmaps)
+		e.locals[vs.Names[0].Name] = late
+		return k(e)
+
 	case *ast.RangeStmt:
 		return g.rangeStmt(st, env, k)
 
@@ -910,6 +947,7 @@ func (g *ogen) bind(env *oenv, name string, v ov) {
 		failAt(g.cur, "%s shadows a variable of an enclosing block", name)
 	}
 	v.depth = env.depth
+	v.slot = ""
 	env.locals[name] = v
 }
 
@@ -1076,6 +1114,23 @@ func (g *ogen) assign(st *ast.AssignStmt, env *oenv, k okont) lnode {
 			return k(e)
 		})
 	}
+	// R15b: x = e on a late variable
+	if id, ok := lhs.(*ast.Ident); ok && env.locals[id.Name].slot != "" {
+		late := env.locals[id.Name]
+		return g.expr(rhs, env, id.Name, func(e *oenv, v ov) lnode {
+			cur := e.locals[id.Name]
+			if cur.slot != late.slot || cur.sort != "unset" {
+				failAt(st, "%s is assigned a second time", id.Name)
+			}
+			if v.sort != "cell" || v.kind != cur.kind || !e.uninit[v.addr] {
+				failAt(st, "%s must be assigned a freshly allocated %s", id.Name, cur.kind)
+			}
+			e = e.clone()
+			v.slot, v.depth = cur.slot, cur.depth
+			e.locals[id.Name] = v
+			return k(e)
+		})
+	}
 	// xs = append(xs, v) on a local slice
 	if id, ok := lhs.(*ast.Ident); ok && env.locals[id.Name].sort == "goslice" {
 		call, ok := rhs.(*ast.CallExpr)
@@ -1122,6 +1177,24 @@ func (g *ogen) assign(st *ast.AssignStmt, env *oenv, k okont) lnode {
 					}
 					e = e.clone()
 					e.heap = op(e.heap) + ".setFields " + e.recvAddr + " (setKV (" + e.container(e.heap) + ") " + op(key.lean) + " " + op(v.lean) + ")"
+					return k(e)
+				})
+			})
+		}
+		// R15d: x.val[key] = v on a local that holds an object cell
+		if xn, sel, ok := selOf(unparen(ix.X)); ok && sel == "val" && env.locals[xn].sort == "cell" && env.locals[xn].kind == "object" {
+			cell := env.locals[xn]
+			g.checkInit(st, env, cell.addr)
+			return g.expr(ix.Index, env, "", func(e *oenv, key ov) lnode {
+				if key.sort != "str" {
+					failAt(st, "the key is not a string")
+				}
+				return g.expr(rhs, e, "", func(e *oenv, v ov) lnode {
+					if v.sort != "field" {
+						failAt(st, "the stored value is not a field (sort %q)", v.sort)
+					}
+					e = e.clone()
+					e.heap = op(e.heap) + ".setFields " + cell.addr + " (setKV (" + op(e.heap) + ".fields " + cell.addr + ") " + op(key.lean) + " " + op(v.lean) + ")"
 					return k(e)
 				})
 			})
@@ -1202,6 +1275,9 @@ func (g *ogen) expr(x ast.Expr, env *oenv, hint string, k ovkont) lnode {
 		if !ok || v.sort == "undef" {
 			failAt(x, "unknown or undefined variable %s", x.Name)
 		}
+		if v.sort == "unset" {
+			failAt(x, "%s is read before it is assigned", x.Name)
+		}
 		return k(env, v)
 
 	case *ast.BasicLit:
@@ -1257,6 +1333,25 @@ func (g *ogen) expr(x ast.Expr, env *oenv, hint string, k ovkont) lnode {
 			case emptyList.MatchString(src(cl)):
 				kind, cell = "list", "Cell.list [] 0"
 			default:
+				// R15c: object{val: make(map[string]field, n)}
+				if tid, ok := cl.Type.(*ast.Ident); ok && tid.Name == "object" && len(cl.Elts) == 1 {
+					if kv, ok := cl.Elts[0].(*ast.KeyValueExpr); ok && isIdent(kv.Key, "val") {
+						if mk, ok := unparen(kv.Value).(*ast.CallExpr); ok && isIdent(mk.Fun, "make") && len(mk.Args) == 2 &&
+							src(mk.Args[0]) == "map[string]field" && mk.Ellipsis == token.NoPos {
+							return g.expr(mk.Args[1], env, "", func(e0 *oenv, n ov) lnode {
+								if n.sort != "int" {
+									failAt(x, "the size hint is not an integer: %s", src(x))
+								}
+								e := e0.clone()
+								addr := g.fresh(e, hint, "Nat")
+								val := op(e0.heap) + ".length"
+								e.heap = op(e0.heap) + " ++ [Cell.obj [] 0]"
+								e.uninit[addr] = true
+								return lLet{name: addr, val: val, body: k(e, ov{sort: "cell", addr: addr, kind: "object"})}
+							})
+						}
+					}
+				}
 				// R14b: the empty container is held by a local
 				held := ov{}
 				if tid, ok := cl.Type.(*ast.Ident); ok && len(cl.Elts) == 1 {
@@ -1468,6 +1563,10 @@ func (g *ogen) call(x *ast.CallExpr, env *oenv, hint string, k ovkont) lnode {
 					return k(e, ov{sort: "int", sym: "len"})
 				case "slist":
 					return k(e, ov{sort: "int", known: true, n: len(v.elems)})
+				case "goval":
+					if v.kvs != "" {
+						return k(e, ov{sort: "int", lean: "(" + v.kvs + ".length : Int)"}) // R15a
+					}
 				}
 				failAt(x, "unsupported len: %s", src(x))
 				return nil
@@ -1728,6 +1827,14 @@ func (g *ogen) inlineBody(at ast.Node, env *oenv, ft *ast.FuncType, body *ast.Bl
 	inner := env.clone()
 	inner.locals = map[string]ov{}
 	for n, v := range def.locals {
+		if v.slot != "" {
+			// R15b: the current state of a late variable, if the call is in its scope
+			if cv, ok := env.locals[n]; ok && cv.slot == v.slot {
+				v = cv
+			} else {
+				v = ov{sort: "undef"}
+			}
+		}
 		inner.locals[n] = v
 	}
 	inner.recvName, inner.recvAddr, inner.recvKind = def.recvName, def.recvAddr, def.recvKind
@@ -1750,7 +1857,15 @@ func (g *ogen) inlineBody(at ast.Node, env *oenv, ft *ast.FuncType, body *ast.Bl
 		out.locals = env.locals
 		out.recvName, out.recvAddr, out.recvKind = env.recvName, env.recvAddr, env.recvKind
 		out.ret = env.ret
-		return out.clone()
+		out = out.clone()
+		for n, cv := range env.locals {
+			// R15b: what the function literal assigned to a late variable
+			if ev, ok := e.locals[n]; ok && cv.slot != "" && ev.slot == cv.slot {
+				ev.depth = cv.depth
+				out.locals[n] = ev
+			}
+		}
+		return out
 	}
 	inner.ret = func(at2 ast.Node, e *oenv, v ov) lnode { return k(back(e), v) }
 	return g.stmts(body.List, inner, func(e *oenv) lnode {
@@ -2245,6 +2360,22 @@ func (g *ogen) rangeStmt(st *ast.RangeStmt, env *oenv, k okont) lnode {
 		return g.dynLoop(st, env, env.container(env.heap), "Str × Val", bind, st.Body.List, k)
 	}
 	return g.expr(st.X, env, "", func(e *oenv, c ov) lnode {
+		if c.sort == "goval" && c.kvs != "" {
+			// R15a: the entries of a Go map handed to the library
+			bind := func(e2 *oenv) string {
+				kp, vp := "_", "_"
+				if keyN != "_" {
+					kp = g.fresh(e2, keyN, "Str")
+					g.bind(e2, keyN, ov{sort: "str", lean: kp, rangeKey: true})
+				}
+				if valN != "_" {
+					vp = g.fresh(e2, valN, "GoVal")
+					g.bind(e2, valN, ov{sort: "goval", lean: vp, whole: vp})
+				}
+				return "(" + kp + ", " + vp + ")"
+			}
+			return g.dynLoop(st, e, c.kvs, "Str × GoVal", bind, st.Body.List, k)
+		}
 		if keyN != "_" {
 			failAt(st, "the index of a range over a slice is not supported")
 		}
@@ -2467,6 +2598,7 @@ func (g *ogen) typeSwitch(st *ast.TypeSwitchStmt, env *oenv, k okont) lnode {
 				goT := goTypeStr(t)
 				ce, leave := scoped(e, k)
 				name := "_"
+				mapPat, kvsName := "", ""
 				mk := func(hint, typ string) string {
 					if bound == "" || bound == "_" || len(c.List) != 1 {
 						return "_"
@@ -2486,6 +2618,11 @@ func (g *ogen) typeSwitch(st *ast.TypeSwitchStmt, env *oenv, k okont) lnode {
 				case strings.HasPrefix(goT, "map[string]") && objFlavours[strings.TrimPrefix(goT, "map[string]")] != "":
 					pat = ".map ." + objFlavours[strings.TrimPrefix(goT, "map[string]")] + " _"
 					bv = ov{sort: "goval", lean: v.whole, whole: v.whole}
+					if kn := mk(bound, "List (Str × GoVal)"); kn != "_" {
+						// R15a: the entries; the name is given back below if the clause does not use it
+						mapPat, kvsName = strings.TrimSuffix(pat, "_")+kn, kn
+						bv.kvs = kn
+					}
 				case strings.HasPrefix(goT, "[]") && objFlavours[strings.TrimPrefix(goT, "[]")] != "":
 					pat = ".slice ." + objFlavours[strings.TrimPrefix(goT, "[]")] + " _"
 					bv = ov{sort: "goval", lean: v.whole, whole: v.whole}
@@ -2526,7 +2663,15 @@ func (g *ogen) typeSwitch(st *ast.TypeSwitchStmt, env *oenv, k okont) lnode {
 					}
 					g.bind(ce, bound, bv)
 				}
-				out.arms = append(out.arms, lArm{pat: pat, body: g.stmts(c.Body, ce, leave)})
+				body := g.stmts(c.Body, ce, leave)
+				if kvsName != "" {
+					if leanTokens(renderNode(body, ""))[kvsName] {
+						pat = mapPat
+					} else {
+						delete(e.f.used, kvsName)
+					}
+				}
+				out.arms = append(out.arms, lArm{pat: pat, body: body})
 			}
 		}
 		dflt, _ := scoped(e, k)
